@@ -117,6 +117,9 @@ func init() {
 		{"rest-class", "GET", "/no/such/path", "", false}, {"rest-class-post", "POST", "/v1/unary/extra", "application/json", false}, {"rpc-class-grpc", "POST", "/verif.v1.Svc/Nope", "application/grpc", false},
 		{"rpc-class-connect", "POST", "/other.Svc/M", "application/connect+proto", false}, {"get-class", "GET", "/verif.v1.Svc/Nope?connect=v1&encoding=proto&message=", "", false},
 		{"root", "GET", "/", "", false}, {"grpcweb-class", "POST", "/verif.v1.Svcx/Unary", "application/grpc-web+proto", false}, {"rest-weird-ct", "PUT", "/v9/x%2Fy/z", "text/plain", false},
+		// media types are case-insensitive, but what the client sent is what the handler must see
+		{"rest-class-ct-case", "POST", "/no/such/upload", "Application/JSON; Charset=UTF-8", false}, {"rest-class-multipart", "POST", "/no/such/form", "multipart/form-data; boundary=----WebKitFormBoundaryAbC123", false},
+		{"grpcweb-class-ct-case", "POST", "/verif.v1.Svcx/Unary", "application/grpc-web+Proto", false}, {"rpc-class-connect-ct-case", "POST", "/other.Svc/M", "Application/Connect+Proto", false},
 		// methods without a REST binding on a REST-only service: "not found" is only known late
 		{"norule-grpc", "POST", "/verif.v1.Svc/NoRule", "application/grpc+proto", true}, {"norule-grpcweb", "POST", "/verif.v1.Svc/NoRule", "application/grpc-web+json", true},
 		{"norule-connect-stream", "POST", "/verif.v1.Svc/CStream", "application/connect+proto", true}, {"norule-connect-unary", "POST", "/verif.v1.Svc/NoRule", "application/json", true},
@@ -327,7 +330,7 @@ func init() {
 	Register(&Check{
 		ID:    "C13",
 		Level: "exploration",
-		Rule: "11 client wire forms (protocol x codec x compression incl. alt/rev) x 3 target-protocol sets x 2 codec sets that accept the client's triple, and 8 unmatched request classes with an unknown-endpoint handler; " +
+		Rule: "11 client wire forms (protocol x codec x compression incl. alt/rev) x 3 target-protocol sets x 2 codec sets that accept the client's triple, and 12 unmatched request classes with an unknown-endpoint handler; " +
 			"up to D deviations: 2 extra headers out of 23 (control headers of every protocol, multi-valued, raw lower-case keys, Content-Length), 9 query strings incl. bad escapes and ForceQuery, 7 arbitrary bodies, " +
 			"declared/unknown/zero content length, body segmentation, HTTP/2, 7 downstream reply scripts. Non-trivial = forwarded request carrying at least one header that the transcoding path strips.",
 		Assume:       []string{"Proto is compared numerically (major, minor); the request context is exempt"},
